@@ -112,6 +112,9 @@ pub enum Call {
     Write { init: bool, nonce: u64, plen: usize },
     /// read on that side of the message the peer writes under `nonce` with `plen` payload bytes
     Read { init: bool, nonce: u64, plen: usize },
+    /// the same read into an output buffer of exactly `plen` bytes (no room for the tag: the backends take a
+    /// different path, ring's through a copy)
+    ReadTight { init: bool, nonce: u64, plen: usize },
 }
 
 pub fn run_call(c: &Call, si: &StatelessTransportState, sr: &StatelessTransportState, msgs: &dyn Fn(bool, u64, usize) -> Vec<u8>) -> Result<Vec<u8>, String> {
@@ -121,12 +124,21 @@ pub fn run_call(c: &Call, si: &StatelessTransportState, sr: &StatelessTransportS
             let mut out = vec![0u8; plen + 16];
             st.write_message(*nonce, &payload_bytes(*plen, *nonce as u8), &mut out).map(|n| out[..n].to_vec()).map_err(|e| format!("{e:?}"))
         },
-        Call::Read { init, nonce, plen } => {
+        Call::Read { init, nonce, plen } | Call::ReadTight { init, nonce, plen } => {
             let st = if *init { si } else { sr };
             let m = msgs(!*init, *nonce, *plen);
-            let mut out = vec![0u8; *plen + 16];
+            let mut out = vec![0u8; if matches!(c, Call::ReadTight { .. }) { *plen } else { *plen + 16 }];
             st.read_message(*nonce, &m, &mut out).map(|n| out[..n].to_vec()).map_err(|e| format!("{e:?}"))
         },
+    }
+}
+
+pub fn how(got: &Result<Vec<u8>, String>, want: &Result<Vec<u8>, String>) -> &'static str {
+    match (got, want) {
+        (Ok(_), Ok(_)) => "returned Ok with other bytes",
+        (Ok(_), Err(_)) => "succeeded although the sequential call fails",
+        (Err(_), Ok(_)) => "failed although the sequential call succeeds",
+        (Err(_), Err(_)) => "failed differently",
     }
 }
 
@@ -139,7 +151,7 @@ pub fn expected(cipher: &'static str, ring: bool, threads: &[Vec<Call>]) -> (Vec
     // genuine messages are computed sequentially, up front, on a session of the same keys
     let mut table: std::collections::HashMap<(bool, u64, usize), Vec<u8>> = std::collections::HashMap::new();
     for c in threads.iter().flatten() {
-        if let Call::Read { init, nonce, plen } = c {
+        if let Call::Read { init, nonce, plen } | Call::ReadTight { init, nonce, plen } = c {
             let from_init = !*init;
             let st = if from_init { &si2 } else { &sr2 };
             let mut out = vec![0u8; plen + 16];
@@ -163,6 +175,7 @@ pub fn mixes() -> Vec<(&'static str, Vec<Vec<Call>>)> {
         ("2x2 write/write same nonce", vec![vec![w(true, 7, 5), w(true, 7, 5)], vec![w(true, 7, 5), w(true, 7, 6)]]),
         ("2x2 write/read same object (both directions)", vec![vec![w(true, 1, 5), r(true, 2, 6)], vec![r(true, 1, 4), w(true, 2, 8)]]),
         ("2x2 read/read", vec![vec![r(false, 1, 5), r(false, 2, 9)], vec![r(false, 3, 5), r(false, 1, 5)]]),
+        ("2x2 read/read into exactly payload-sized buffers", vec![vec![Call::ReadTight { init: false, nonce: 1, plen: 5 }, Call::ReadTight { init: false, nonce: 2, plen: 9 }], vec![Call::ReadTight { init: false, nonce: 3, plen: 5 }, Call::ReadTight { init: false, nonce: 1, plen: 5 }]]),
         ("3x1 write/write/read", vec![vec![w(false, 4, 3)], vec![w(false, 5, 3)], vec![r(false, 4, 6)]]),
         ("3x1 reads incl. a rejected one", vec![vec![r(true, 9, 3)], vec![r(true, 10, 3)], vec![Call::Read { init: true, nonce: u64::MAX, plen: 3 }]]),
     ]
@@ -197,7 +210,7 @@ pub fn explore_mix(cipher: &'static str, ring: bool, threads: Vec<Vec<Call>>) ->
                         if got != exp[t][k] {
                             let mut g = bad.lock().unwrap();
                             if g.len() < 3 {
-                                g.push(format!("thread {t} call {k} {c:?}: concurrent result differs from the sequential function"));
+                                g.push(format!("thread {t} call {k} {c:?}: concurrent result differs from the sequential function ({})", how(&got, &exp[t][k])));
                             }
                         }
                     }
@@ -237,7 +250,7 @@ pub fn stress_mix(cipher: &'static str, ring: bool, threads: Vec<Vec<Call>>, rou
                         if got != exp[t][k] {
                             let mut g = bad.lock().unwrap();
                             if g.len() < 3 {
-                                g.push(format!("thread {t} call {k} {c:?}: result under real threads differs from the sequential function"));
+                                g.push(format!("thread {t} call {k} {c:?}: result under real threads differs from the sequential function ({})", how(&got, &exp[t][k])));
                             }
                             return;
                         }
